@@ -25,7 +25,7 @@ VERIF = Path(__file__).resolve().parent.parent
 SPEC = VERIF / "spec"
 WORK = VERIF / "work"
 EVID = VERIF / "evidence"
-REPO = Path(os.environ.get("VERIF_REPO", "/repo"))
+REPO = Path(os.environ.get("VERIF_REPO") or "/repo")
 JAR = "/opt/veriftools/tla/tla2tools.jar:/opt/veriftools/tla/CommunityModules-deps.jar"
 
 
